@@ -227,17 +227,6 @@ theorem visit_spec (g : Graph) (hw : WF g) : ∀ (fuel n d : Nat) (st : Dfs),
     have hlt : ∀ p ∈ g[n], p < g.length → p < fuel := by
       intro p hp hpl
       rcases hw n _ hg p hp with h | h <;> omega
-    -- generic facts used to close the pop step
-    have hpop : ∀ (st1 s : Dfs) (roots : List Nat) (fc : Bool),
-        (∀ x ∈ st.seen, x ∈ st1.seen) → st1.done = st.done →
-        (∀ l, lpOf g n = some l → l ∈ st1.seen) →
-        (fc = true → ∀ l, lpOf g n = some l → l ∉ st.seen) →
-        Inv g s → Ext g st1 s roots d →
-        (∀ r ∈ roots, r ∈ g[n] ∧ r < g.length) →
-        (∀ p ∈ g[n], p < g.length → p ∈ doneSet s) →
-        VisitOk g (fuel + 1) n d st →
-        VisitOk g (fuel + 1) n d st := fun _ _ _ _ _ _ _ _ _ _ _ _ h => h
-    clear hpop
     -- the state after the pop, and why it is fine
     have finish : ∀ (st1 s : Dfs) (roots : List Nat) (fc : Bool),
         (∀ x ∈ st.seen, x ∈ st1.seen) → st1.done = st.done →
